@@ -13,10 +13,33 @@ UNSIGNED = {'uint', 'uint64', 'uintptr', 'uint32', 'uint16', 'uint8', 'byte'}
 
 # ------------------------------------------------------------------ value classes
 class SymStr:
-    __slots__ = ('arr', 'off', 'len', 'maxlen')
+    """symbolic string, array free: `cells` is a tuple of byte values (python ints or BV8 terms), the string is
+    cells[off : off+len]; off and len may be BV64 terms; maxlen is a concrete upper bound of len"""
+    __slots__ = ('cells', 'off', 'len', 'maxlen')
 
-    def __init__(self, arr, off, ln, maxlen):
-        self.arr, self.off, self.len, self.maxlen = arr, off, ln, maxlen
+    def __init__(self, cells, off, ln, maxlen):
+        self.cells, self.off, self.len = tuple(cells), off, ln
+        self.maxlen = min(maxlen, len(self.cells) - (off if not is_sym(off) else 0)) if not is_sym(ln) or True else maxlen
+        if self.maxlen < 0:
+            self.maxlen = 0
+
+
+def merge_cells(c, a, b):
+    """cell-wise ite of two cell tuples (shorter one padded with 0)"""
+    if a is b:
+        return a
+    n = max(len(a), len(b))
+    out = []
+    for j in range(n):
+        x = a[j] if j < len(a) else 0
+        y = b[j] if j < len(b) else 0
+        if not is_sym(x) and not is_sym(y) and x == y:
+            out.append(x)
+        elif is_sym(x) and is_sym(y) and x.eq(y):
+            out.append(x)
+        else:
+            out.append(z3.If(c, to_bv(x, 8), to_bv(y, 8)))
+    return tuple(out)
 
 
 class ChoiceStr:    # guarded set of concrete strings: alts = ((guard, bytes), ...), guards exhaustive & disjoint under pc
@@ -66,7 +89,7 @@ def choice_to_sym(s):
     acc = conc_to_sym(alts[-1][1])
     for g, v in reversed(alts[:-1]):
         y = conc_to_sym(v)
-        acc = SymStr(z3.If(g, y.arr, acc.arr), 0, ite_int(g, y.len, acc.len, 64), max(y.maxlen, acc.maxlen))
+        acc = SymStr(merge_cells(g, y.cells, acc.cells), 0, ite_int(g, y.len, acc.len, 64), max(y.maxlen, acc.maxlen))
     return acc
 
 
@@ -264,10 +287,7 @@ def ite_bool(c, a, b):
 
 
 def conc_to_sym(b):
-    arr = z3.K(z3.BitVecSort(64), z3.BitVecVal(0, 8))
-    for i, ch in enumerate(b):
-        arr = z3.Store(arr, bvc(i, 64), bvc(ch, 8))
-    return SymStr(arr, 0, len(b), len(b))
+    return SymStr(tuple(b), 0, len(b), len(b))
 
 
 def sym(s):
@@ -292,21 +312,15 @@ def add64(a, b):
     return si(to_bv(a, 64) + to_bv(b, 64))
 
 
-def arr_sel(arr, idx):
-    """select with a concrete index, resolved structurally through store / ite / const-array"""
-    if z3.is_app(arr):
-        k = arr.decl().kind()
-        if k == z3.Z3_OP_STORE:
-            a, i, v = arr.children()
-            if z3.is_bv_value(i):
-                return v if i.as_long() == idx else arr_sel(a, idx)
-        elif k == z3.Z3_OP_ITE:
-            c, a, b = arr.children()
-            x, y = arr_sel(a, idx), arr_sel(b, idx)
-            return x if x.eq(y) else z3.If(c, x, y)
-        elif k == z3.Z3_OP_CONST_ARRAY:
-            return arr.children()[0]
-    return z3.Select(arr, bvc(idx, 64))
+def cells_at(cells, pos):
+    """cells[pos] for a concrete or symbolic position (ite chain over the cells; 0 outside)"""
+    if not is_sym(pos):
+        return cells[pos] if 0 <= pos < len(cells) else 0
+    acc = bvc(0, 8)
+    allc = all(not is_sym(x) for x in cells)
+    for j in reversed(range(len(cells))):
+        acc = z3.If(pos == j, to_bv(cells[j], 8), acc)
+    return si(acc, signed=False)
 
 
 def str_at(s, i):
@@ -314,9 +328,8 @@ def str_at(s, i):
         return s[i]
     s = sym(s)
     pos = add64(s.off, i)
-    if not is_sym(pos):
-        return si(arr_sel(s.arr, pos), signed=False)
-    return si(z3.Select(s.arr, to_bv(pos, 64)), signed=False)
+    v = cells_at(s.cells, pos)
+    return si(v, signed=False) if is_sym(v) else v
 
 
 def str_eq(x, y):
@@ -427,6 +440,10 @@ class Engine:
         self.redirects = {}
         self.cuts = {}
         self.env_vars = {}
+        self.params = {}
+        self.naming = True
+        self.ndefs = 0
+        self.defs = []
 
     # ------------------------------------------------------------ types
     def T(self, t):
@@ -511,8 +528,7 @@ class Engine:
             if str_alts(a) is not None and str_alts(b) is not None:
                 return choice_merge(c, a, b)
             a, b = sym(a), sym(b)
-            return SymStr(z3.If(c, a.arr, b.arr), ite_int(c, a.off, b.off, 64), ite_int(c, a.len, b.len, 64),
-                          max(a.maxlen, b.maxlen))
+            return sym_ite_str(c, a, b)
         if k == 'ptr' or k == 'UnsafePointer':
             return Ptr(union_alts(c, a.alts, b.alts, lambda r: (r[0], r[1])))
         if k == 'map':
@@ -621,7 +637,7 @@ class Engine:
                     env[k] = s.env[k]
             if acc.defers != s.defers:
                 raise Unsupported('merge with different defer stacks')
-            acc = State(sb(Or(acc.pc, s.pc)), env, heap, acc.defers)
+            acc = State(self.name(sb(Or(acc.pc, s.pc))), env, heap, acc.defers)
         return acc
 
     # ------------------------------------------------------------ CFG analysis
@@ -722,12 +738,37 @@ class Engine:
         return res
 
     # ------------------------------------------------------------ solver
+    def name(self, b):
+        """give a path condition a fresh Boolean name whose definition is asserted once in the solver
+        (definitional extension: constrains nothing); later queries only mention the name"""
+        if not is_sym(b) or not self.naming:
+            return b
+        if z3.is_const(b) and b.decl().kind() == z3.Z3_OP_UNINTERPRETED:
+            return b
+        if z3.is_not(b) and z3.is_const(b.arg(0)):
+            return b
+        self.ndefs += 1
+        g = z3.Bool('g!%d' % self.ndefs)
+        self.solver.add(g == b)
+        self.defs.append((g, b))
+        return g
+
+    def expand(self, t):
+        """inline all definitional names (used when a closed-form term over the inputs is needed)"""
+        if not is_sym(t) or not self.defs:
+            return t
+        for g, b in reversed(self.defs):
+            t = z3.substitute(t, (g, b))
+        return t
+
     def feasible(self, pc):
         if pc is True:
             return True
         if pc is False:
             return False
         self.stats['feas'] += 1
+        if z3.is_const(pc) or z3.is_not(pc):
+            return self.solver.check(pc) != z3.unsat
         self.solver.push()
         self.solver.add(pc)
         r = self.solver.check()
@@ -748,7 +789,7 @@ class Engine:
         bad = sb(And(st.pc, cond))
         if bad is not False:
             self.obligations.append(('panic:' + what, bad))
-        st.pc = sb(And(st.pc, Not(cond)))
+        st.pc = self.name(sb(And(st.pc, Not(cond))))
 
     # ------------------------------------------------------------ heap
     def new_obj(self, st, val, t):
@@ -984,7 +1025,7 @@ class Engine:
                     if cond is False:
                         continue
                     s1 = st if cond is True else st.copy()
-                    s1.pc = sb(And(st.pc, cond))
+                    s1.pc = self.name(sb(And(st.pc, cond)))
                     if s1.pc is False:
                         continue
                     if self.prune and cond is not True and not self.feasible(s1.pc):
@@ -1131,7 +1172,7 @@ class Engine:
                         raise Unsupported('iface value compare')
         return sb(Or(*conds))
 
-    def convert(self, v, ft, tt):
+    def convert(self, v, ft, tt, st=None):
         fk, tk = self.kind(ft), self.kind(tt)
         if fk == 'int' and tk == 'int':
             fb, fs = self.int_info(ft)
@@ -1146,7 +1187,27 @@ class Engine:
         if fk == tk:
             return v
         if fk == 'string' and tk == 'slice':
-            raise Unsupported('[]byte(string)')
+            et = self.T(self.under(tt)[0])['elem']
+            if self.int_info(et)[0] != 8:
+                raise Unsupported('[]rune(string)')
+            if isinstance(v, bytes):
+                obj = self.new_obj(st, tuple(v), None)
+                return SliceV(obj, 0, len(v), len(v), False)
+            v = sym(v)
+            cells = tuple(str_at(v, j) for j in range(v.maxlen))
+            obj = self.new_obj(st, cells, None)
+            return SliceV(obj, 0, v.len, v.maxlen, False)
+        if fk == 'slice' and tk == 'string':
+            if v.obj is None:
+                return b''
+            elems = st.heap[v.obj][v.off:v.off + v.cap]
+            if not is_sym(v.len) and all(not is_sym(x) for x in elems[:v.len]):
+                return bytes(elems[:v.len])
+            return SymStr(tuple(elems), 0, v.len, len(elems))
+        if fk == 'int' and tk == 'string':
+            if is_sym(v):
+                raise Unsupported('string(symbolic rune)')
+            return chr(v).encode('utf-8')
         raise Unsupported('convert %s -> %s' % (fk, tk))
 
     def exec_instr(self, st, ins):
@@ -1260,7 +1321,7 @@ class Engine:
         if op == 'ChangeInterface' or op == 'ChangeType':
             return self.val(st, ins['x'])
         if op == 'Convert':
-            return self.convert(self.val(st, ins['x']), ins['x']['t'], ins['type'])
+            return self.convert(self.val(st, ins['x']), ins['x']['t'], ins['type'], st)
         if op == 'TypeAssert':
             x = self.val(st, ins['x'])
             asserted = ins['asserted']
@@ -1401,7 +1462,10 @@ class Engine:
             x = sym(x)
             l64, h64, n64 = to_bv(lo, 64), to_bv(hi, 64), to_bv(n, 64)
             self.panic(st, sb(z3.Not(z3.And(z3.ULE(l64, h64), z3.ULE(h64, n64)))), 'slice-string')
-            return SymStr(x.arr, add64(x.off, lo), si(h64 - l64), x.maxlen)
+            ml = x.maxlen - (lo if not is_sym(lo) else 0)
+            if not is_sym(hi):
+                ml = min(ml, hi - (lo if not is_sym(lo) else 0))
+            return SymStr(x.cells, add64(x.off, lo), si(h64 - l64), max(ml, 0))
         if isinstance(x, Ptr):
             (g, obj, path), = x.alts
             arr = self.get_path(st.heap[obj], path)
@@ -1656,24 +1720,18 @@ def i_sprintf(e, st, args, ins):
         for p in pieces:
             acc = sym_concat(acc, p if isinstance(p, bytes) else p[1])
         return acc
-    arr = z3.K(z3.BitVecSort(64), z3.BitVecVal(0, 8))
-    off, maxlen = 0, 0
+    acc = b''
     for p in pieces:
         if isinstance(p, bytes):
-            for j, chv in enumerate(p):
-                arr = z3.Store(arr, to_bv(add64(off, j), 64), bvc(chv, 8))
-            off = add64(off, len(p))
-            maxlen += len(p)
+            acc = sym_concat(acc, p)
         else:
             v8 = p[1]
             one = z3.ULT(v8, 10)
             d_hi = z3.If(one, v8 + 48, z3.UDiv(v8, bvc(10, 8)) + 48)
             d_lo = z3.URem(v8, bvc(10, 8)) + 48
-            arr = z3.Store(arr, to_bv(off, 64), d_hi)
-            arr = z3.Store(arr, to_bv(add64(off, 1), 64), d_lo)
-            off = si(to_bv(off, 64) + z3.If(one, bvc(1, 64), bvc(2, 64)))
-            maxlen += 2
-    return SymStr(arr, 0, off, maxlen)
+            num = SymStr((d_hi, d_lo), 0, si(z3.If(one, bvc(1, 64), bvc(2, 64))), 2)
+            acc = sym_concat(acc, num)
+    return acc
 
 
 def conc(*vs):
@@ -1723,13 +1781,31 @@ def i_nondet_string(e, st, a, i):
     cnt = e.nondet_count.get(name, 0)
     e.nondet_count[name] = cnt + 1
     name = '%s#%d' % (name, cnt)
-    arr = z3.Array('str_' + name, z3.BitVecSort(64), z3.BitVecSort(8))
+    cells = tuple(z3.BitVec('str_%s_%d' % (name, j), 8) for j in range(maxlen))
     ln = z3.BitVec('len_' + name, 64)
     e.solver.add(z3.ULE(ln, maxlen))
     for j in range(maxlen):
-        e.solver.add(z3.Or([z3.Select(arr, bvc(j, 64)) == ch for ch in alpha]))
-    e.inputs[name] = ('str', arr, ln, maxlen)
-    return SymStr(arr, 0, ln, maxlen)
+        e.solver.add(z3.Or([cells[j] == ch for ch in alpha]))
+    e.inputs[name] = ('str', cells, ln, maxlen)
+    return SymStr(cells, 0, ln, maxlen)
+
+
+def i_nondet_string_n(e, st, a, i):
+    name, n, alpha = a[0].decode(), a[1], a[2]
+    if is_sym(n):
+        raise Unsupported('NondetStringN with symbolic length')
+    cnt = e.nondet_count.get(name, 0)
+    e.nondet_count[name] = cnt + 1
+    name = '%s#%d' % (name, cnt)
+    cells = tuple(z3.BitVec('str_%s_%d' % (name, j), 8) for j in range(n))
+    for j in range(n):
+        e.solver.add(z3.Or([cells[j] == ch for ch in alpha]))
+    e.inputs[name] = ('str', cells, bvc(n, 64), n)
+    return SymStr(cells, 0, n, n)
+
+
+def i_param(e, st, a, i):
+    return e.params[a[0].decode()]
 
 
 def i_setenv(e, st, a, i):
@@ -1794,7 +1870,7 @@ def i_split(e, st, a, i):
             return acc
         start = bvc(0, 64) if k == 0 else pos_of(k - 1) + 1
         end = pos_of(k)
-        parts.append(SymStr(s.arr, si(to_bv(s.off, 64) + start), si(end - start), L))
+        parts.append(SymStr(s.cells, si(to_bv(s.off, 64) + start), si(end - start), L))
     obj = e.new_obj(st, tuple(parts), None)
     return SliceV(obj, 0, nparts, L + 1, False)
 
@@ -1865,10 +1941,7 @@ def i_builder_string(e, st, a, i):
     elems = st.heap[buf.obj][buf.off:buf.off + buf.cap]
     if not is_sym(buf.len) and all(not is_sym(x) for x in elems[:buf.len]):
         return bytes(elems[:buf.len])
-    arr = z3.K(z3.BitVecSort(64), z3.BitVecVal(0, 8))
-    for j, x in enumerate(elems):
-        arr = z3.Store(arr, bvc(j, 64), to_bv(x, 8))
-    return SymStr(arr, 0, buf.len, len(elems))
+    return SymStr(tuple(elems), 0, buf.len, len(elems))
 
 
 def i_indexbyte(e, st, a, i):
@@ -1900,19 +1973,31 @@ def sym_concat(a, b):
     if str_alts(a) is not None and str_alts(b) is not None:
         return choice_str(choice_map(lambda x, y: x + y, a, b))
     a, b = sym(a), sym(b)
-    # rebase a at offset 0 so that positions are concrete where possible
-    arr = z3.K(z3.BitVecSort(64), z3.BitVecVal(0, 8))
-    for j in range(a.maxlen):
-        arr = z3.Store(arr, bvc(j, 64), to_bv(str_at(a, j), 8))
+    n = a.maxlen + b.maxlen
+    if not is_sym(a.len):
+        cells = [str_at(a, j) for j in range(a.len)] + [str_at(b, j) for j in range(b.maxlen)]
+        return SymStr(cells, 0, add64(a.len, b.len), a.len + b.maxlen)
+    # rebase a at offset 0; cell k holds a[k] below len(a) and b[k - len(a)] above
     la = to_bv(a.len, 64)
-    for j in range(b.maxlen):
-        arr = z3.Store(arr, si(la + j) if is_sym(si(la + j)) else bvc(si(la + j), 64), to_bv(str_at(b, j), 8))
-    return SymStr(arr, 0, si(la + to_bv(b.len, 64)), a.maxlen + b.maxlen)
+    bc = [str_at(b, j) for j in range(b.maxlen)]
+    cells = []
+    for k in range(n):
+        ak = str_at(a, k) if k < a.maxlen else 0
+        # b[k - la]: la ranges over 0..min(k, a.maxlen)
+        acc = bvc(0, 8)
+        for l in range(min(k, a.maxlen) + 1):
+            if k - l < len(bc):
+                acc = z3.If(la == l, to_bv(bc[k - l], 8), acc)
+        if k < a.maxlen:
+            cells.append(si(z3.If(z3.UGT(la, k), to_bv(ak, 8), acc), signed=False))
+        else:
+            cells.append(si(acc, signed=False))
+    return SymStr(cells, 0, si(la + to_bv(b.len, 64)), n)
 
 
 def sym_substr(s, lo, hi):
     s = sym(s)
-    return SymStr(s.arr, add64(s.off, lo), si(to_bv(hi, 64) - to_bv(lo, 64)), s.maxlen)
+    return SymStr(s.cells, add64(s.off, lo), si(to_bv(hi, 64) - to_bv(lo, 64)), s.maxlen)
 
 
 def sym_match_at(s, sub, o):
@@ -1941,7 +2026,10 @@ def sym_ite_str(c, a, b):
     if c is False:
         return b
     a, b = sym(a), sym(b)
-    return SymStr(z3.If(c, a.arr, b.arr), ite_int(c, a.off, b.off, 64), ite_int(c, a.len, b.len, 64), max(a.maxlen, b.maxlen))
+    if a.cells is b.cells:
+        return SymStr(a.cells, ite_int(c, a.off, b.off, 64), ite_int(c, a.len, b.len, 64), max(a.maxlen, b.maxlen))
+    return SymStr(merge_cells(c, a.cells, b.cells), ite_int(c, a.off, b.off, 64), ite_int(c, a.len, b.len, 64),
+                  max(a.maxlen, b.maxlen))
 
 
 def i_replace(e, st, a, i):
@@ -1990,8 +2078,81 @@ def i_hassuffix(e, st, a, i):
     for j in range(n):
         # byte at len-n+j
         pos = si(ln - n + j)
-        conds.append(z3.Select(s.arr, to_bv(add64(s.off, pos), 64)) == suf[j])
+        conds.append(to_bv(str_at(s, pos), 8) == suf[j])
     return sb(z3.And(conds))
+
+
+def _trim(s, cutset, left, right):
+    """strings.Trim* with a concrete cutset"""
+    conc(cutset)
+    if isinstance(s, bytes):
+        if left:
+            s = s.lstrip(cutset)
+        if right:
+            s = s.rstrip(cutset)
+        return s
+    if str_alts(s) is not None:
+        return choice_str(choice_map(lambda x: _trim(x, cutset, left, right), s))
+    s = sym(s)
+    ln = to_bv(s.len, 64)
+    L = s.maxlen
+    incut = [z3.And(z3.UGT(ln, j), z3.Or([to_bv(str_at(s, j), 8) == c for c in cutset])) for j in range(L)]
+    lo = bvc(0, 64)
+    if left:
+        # number of leading bytes in the cutset
+        allp = z3.BoolVal(True)
+        for j in range(L):
+            allp = z3.And(allp, incut[j])
+            lo = z3.If(allp, bvc(j + 1, 64), lo)
+    hi = ln
+    if right:
+        # trailing: byte at position len-1-k
+        allp = z3.BoolVal(True)
+        for k in range(L):
+            pos = si(ln - 1 - k)
+            inr = z3.UGT(ln, k)
+            ch = to_bv(str_at(s, pos), 8) if is_sym(pos) else to_bv(str_at(s, pos) if 0 <= pos < L else 0, 8)
+            allp = z3.And(allp, inr, z3.Or([ch == c for c in cutset]))
+            hi = z3.If(allp, ln - (k + 1), hi)
+    # everything trimmed from the left: lo == len, and then hi may be < lo -> empty
+    hi = z3.If(z3.ULT(hi, lo), lo, hi)
+    return SymStr(s.cells, si(to_bv(s.off, 64) + lo), si(hi - lo), L)
+
+
+def i_trim(e, st, a, i):
+    return _trim(a[0], a[1], True, True)
+
+
+def i_trimleft(e, st, a, i):
+    return _trim(a[0], a[1], True, False)
+
+
+def i_trimright(e, st, a, i):
+    return _trim(a[0], a[1], False, True)
+
+
+def i_trimprefix(e, st, a, i):
+    s, pre = a
+    if isinstance(s, bytes) and isinstance(pre, bytes):
+        return s[len(pre):] if s.startswith(pre) else s
+    if str_alts(s) is not None and str_alts(pre) is not None:
+        return choice_str(choice_map(lambda x, y: x[len(y):] if x.startswith(y) else x, s, pre))
+    has = i_hasprefix_sym(e, st, a, i)
+    ss = sym(s)
+    cut = SymStr(ss.cells, add64(ss.off, str_len(pre)), si(to_bv(ss.len, 64) - to_bv(str_len(pre), 64)), ss.maxlen)
+    return sym_ite_str(has, cut, ss)
+
+
+def i_trimsuffix(e, st, a, i):
+    s, suf = a
+    if isinstance(s, bytes) and isinstance(suf, bytes):
+        return s[:len(s) - len(suf)] if suf and s.endswith(suf) else s
+    if str_alts(s) is not None and str_alts(suf) is not None:
+        return choice_str(choice_map(lambda x, y: x[:len(x) - len(y)] if y and x.endswith(y) else x, s, suf))
+    has = i_hassuffix(e, st, a, i)
+    ss = sym(s)
+    cut = SymStr(ss.cells, ss.off, si(to_bv(ss.len, 64) - to_bv(str_len(suf), 64)), ss.maxlen)
+    return sym_ite_str(has, cut, ss)
 
 
 def i_hasprefix_sym(e, st, a, i):
@@ -2153,6 +2314,8 @@ INTRINSICS = {
     'strings.IndexByte': i_indexbyte,
     'sort.Strings': i_sort_strings,
     'github.com/onosproject/onos-config/internal/verifrt.NondetString': i_nondet_string,
+    'github.com/onosproject/onos-config/internal/verifrt.NondetStringN': i_nondet_string_n,
+    'github.com/onosproject/onos-config/internal/verifrt.Param': i_param,
     'github.com/onosproject/onos-config/internal/verifrt.SetEnv': i_setenv,
     'os.Getenv': i_getenv,
     'strings.ToLower': i_tolower,
@@ -2175,7 +2338,7 @@ INTRINSICS = {
     'github.com/onosproject/onos-config/internal/verifrt.Region': i_region,
     'github.com/onosproject/onos-config/internal/verifrt.Symbolic': lambda e, st, a, i: True,
     'github.com/onosproject/onos-config/internal/verifrt.NondetInt32': lambda e, st, a, i: nondet_signed(e, st, a, i, 32),
-    'github.com/onosproject/onos-config/internal/verifrt.Assume': lambda e, st, a, i: setattr(st, 'pc', sb(And(st.pc, a[0]))),
+    'github.com/onosproject/onos-config/internal/verifrt.Assume': lambda e, st, a, i: setattr(st, 'pc', e.name(sb(And(st.pc, a[0])))),
     'github.com/onosproject/onos-config/internal/verifrt.Assert': lambda e, st, a, i: e.obligations.append((a[1].decode(), sb(And(st.pc, Not(a[0]))))),
     'github.com/onosproject/onos-config/internal/verifrt.Cover': lambda e, st, a, i: (e.covers.append((a[0].decode(), st.pc)), e.snapshots.__setitem__(a[0].decode(), (st.pc, dict(st.heap)))) and None,
     'context.Background': lambda e, st, a, i: Opaque('ctx'),
@@ -2188,6 +2351,11 @@ INTRINSICS = {
 
 
 INTRINSICS.update({
+    'strings.Trim': i_trim,
+    'strings.TrimLeft': i_trimleft,
+    'strings.TrimRight': i_trimright,
+    'strings.TrimPrefix': i_trimprefix,
+    'strings.TrimSuffix': i_trimsuffix,
     'strings.Replace': i_replace,
     'strings.Join': i_join,
     'strings.HasSuffix': i_hassuffix,
@@ -2242,7 +2410,7 @@ def run(progfile, entry, unwind=12, prune=True, quiet=False):
             for k, v in eng.inputs.items():
                 if isinstance(v, tuple) and v[0] == 'str':
                     n = m.eval(v[2], model_completion=True).as_long()
-                    model[k] = bytes(m.eval(z3.Select(v[1], bvc(j, 64)), model_completion=True).as_long() for j in range(n))
+                    model[k] = bytes(m.eval(v[1][j], model_completion=True).as_long() for j in range(n))
                 else:
                     model[k] = m.eval(v, model_completion=True)
         eng.solver.pop()
